@@ -1,8 +1,200 @@
-(* C10 - The decoder is total, prefix-consistent and never mis-accepts damaged frames. *)
-From PB Require Import Common Telegram CodecOracle DecodeSpec C09Proofs.
+(* C10 - The decoder is total, prefix-consistent and never mis-accepts damaged frames.
+   Theorem statements only; every proof is `exact <lemma of Proofs/>`.
+   All theorems quantify over ALL byte lists (no length bound); `all_bytes l` (every element in
+   0..255) is assumed only where a statement is about byte values. *)
+From PB Require Import Common Telegram CodecOracle DecodeSpec C09Proofs C10Proofs.
 
 (* For every byte string the decoder terminates without panicking (the decoder has no loop, so
    there is no fuel): it asks for more data, rejects, or returns a telegram. *)
 Theorem C10_total : forall l : bytes, exists r : dres, decode l = Ok r.
 Proof. exact (fun l => ex_intro _ (decode_spec l) (decode_is_spec l)). Qed.
 Print Assumptions C10_total.
+
+(* A returned telegram lies inside the input: the reported length does not exceed the input and is
+   the announced frame length; the PDU is the contiguous sub-list of the input at the stated
+   offset and is followed by exactly FCS and ED inside the reported length; token and SC likewise. *)
+Theorem C10_inside : forall (l : bytes) (t : telegram) (n : nat),
+  decode l = Ok (Accept t n) ->
+  (n <= length l)%nat /\ n = need l /\
+  match t with
+  | TData h pdu =>
+      let off := ((if (nth 0 l 0%Z =? SD2)%Z then 7 else 4) + has_sap (h_dsap h) + has_sap (h_ssap h))%nat in
+      (off + length pdu + 2 = n)%nat /\ firstn (length pdu) (skipn off l) = pdu
+  | TToken da sa => n = 3%nat /\ firstn 3 l = [SD4; da; sa]
+  | TShortConf => n = 1%nat /\ firstn 1 l = [SC]
+  end.
+Proof. exact accept_inside. Qed.
+Print Assumptions C10_inside.
+
+(* More data is requested only while the input is shorter than the announced total length
+   (1/3/6/14 by delimiter, LE+6 for SD2), and never once that length is available. *)
+Theorem C10_needmore_only_if_short : forall l : bytes,
+  decode l = Ok NeedMore -> (length l < need l)%nat.
+Proof. exact needmore_short. Qed.
+Print Assumptions C10_needmore_only_if_short.
+
+Theorem C10_long_enough_decides : forall l : bytes,
+  (need l <= length l)%nat -> decode l <> Ok NeedMore.
+Proof. exact long_enough_decides. Qed.
+Print Assumptions C10_long_enough_decides.
+
+(* Every proper prefix of a valid frame (data, token, SC) makes the decoder wait. *)
+Theorem C10_valid_prefix_waits : forall (h : header) (pdu : bytes) (k : nat),
+  wf_header h -> (length_byte h (length pdu) <= 249)%nat -> (k < length (frame_spec h pdu))%nat ->
+  decode (firstn k (frame_spec h pdu)) = Ok NeedMore.
+Proof. exact valid_prefix_waits_data. Qed.
+Print Assumptions C10_valid_prefix_waits.
+
+Theorem C10_valid_prefix_waits_token : forall (da sa : Z) (k : nat),
+  (k < 3)%nat -> decode (firstn k (encode (TToken da sa))) = Ok NeedMore.
+Proof. exact valid_prefix_waits_token. Qed.
+Print Assumptions C10_valid_prefix_waits_token.
+
+Theorem C10_valid_prefix_waits_sc : forall k : nat,
+  (k < 1)%nat -> decode (firstn k (encode TShortConf)) = Ok NeedMore.
+Proof. exact valid_prefix_waits_sc. Qed.
+Print Assumptions C10_valid_prefix_waits_sc.
+
+(* The verdict on a longer input never contradicts the verdict on a prefix: Accept and Reject are
+   final (same telegram, same consumed length), whatever is appended. *)
+Theorem C10_prefix_consistent : forall (l ext : bytes),
+  (forall t n, decode l = Ok (Accept t n) -> decode (l ++ ext) = Ok (Accept t n)) /\
+  (decode l = Ok Reject -> decode (l ++ ext) = Ok Reject).
+Proof. exact (fun l ext => conj (fun t n => accept_stable l t n ext) (reject_stable l ext)). Qed.
+Print Assumptions C10_prefix_consistent.
+
+(* A data telegram is accepted only if the input starts with a complete, well-formed frame:
+   first delimiter matching the length class (SD1: 3 bytes, SD3: 11 bytes, SD2: LE bytes with
+   LE = LEr and the repeated SD2), header bytes carrying exactly the returned addresses /
+   extension bits / SAPs, a function code byte that decodes to the returned code, the PDU, the
+   checksum being the byte sum and the end delimiter ED; the consumed length is that frame's length.
+   (frame_raw / frame_raw_sd2 in Model/CodecOracle.v; the latter because SD2 with LE = 3 or 11
+   is a legal variable-length frame.) *)
+Theorem C10_accept_criterion : forall (l : bytes) (h : header) (pdu : bytes) (n : nat),
+  all_bytes l -> decode l = Ok (Accept (TData h pdu) n) ->
+  wf_header h /\ all_bytes pdu /\
+  exists fcbyte rest,
+    fc_from_byte fcbyte = Some (h_fc h) /\ is_byte fcbyte /\
+    ((nth 0 l 0 <> SD2 /\ l = frame_raw h fcbyte pdu ++ rest /\ n = length (frame_raw h fcbyte pdu)) \/
+     (nth 0 l 0 = SD2 /\ l = frame_raw_sd2 h fcbyte pdu ++ rest /\ n = length (frame_raw_sd2 h fcbyte pdu))).
+Proof. exact accept_criterion. Qed.
+Print Assumptions C10_accept_criterion.
+
+(* The extracted oracle that the correspondence check runs on the implementation's outputs is
+   implied by the theorems above: it holds of every result of the model decoder. *)
+Theorem C10_oracle_sound : forall (l : bytes) (r : dres),
+  all_bytes l -> decode l = Ok r -> c10_dec_ok l (Some r) = true.
+Proof. exact dec_oracle_ok. Qed.
+Print Assumptions C10_oracle_sound.
+
+(* Any corruption confined to a single byte of a valid data frame is rejected (never decoded as
+   any telegram, not even asked to continue) - at every position and for every new value, except
+   that the first start delimiter is replaced by another frame-start byte (DESIGN 4.0). *)
+Theorem C10_single_byte : forall (h : header) (pdu : bytes) (pos : nat) (v : Z),
+  wf_header h -> all_bytes pdu -> (length_byte h (length pdu) <= 249)%nat ->
+  (pos < length (frame_spec h pdu))%nat -> is_byte v -> v <> nth pos (frame_spec h pdu) 0 ->
+  ~ (pos = 0%nat /\ is_delim v = true) ->
+  decode (subst (frame_spec h pdu) pos v) = Ok Reject.
+Proof. exact single_byte_data. Qed.
+Print Assumptions C10_single_byte.
+
+Theorem C10_single_byte_sc : forall (pos : nat) (v : Z),
+  (pos < length (encode TShortConf))%nat -> v <> nth pos (encode TShortConf) 0 ->
+  ~ (pos = 0%nat /\ is_delim v = true) ->
+  decode (subst (encode TShortConf) pos v) = Ok Reject.
+Proof. exact single_byte_sc. Qed.
+Print Assumptions C10_single_byte_sc.
+
+(* The checksum argument: the frame check sequence is the byte sum modulo 256, so it changes
+   whenever exactly one summed byte changes. *)
+Theorem C10_checksum_detects_one_byte : forall (l : bytes) (pos : nat) (v : Z),
+  (pos < length l)%nat -> is_byte (nth pos l 0) -> is_byte v -> v <> nth pos l 0 ->
+  sum8 (subst l pos v) <> sum8 l.
+Proof. exact sum8_single_change. Qed.
+Print Assumptions C10_checksum_detects_one_byte.
+
+(* The five regenerated frame-start bytes are pairwise at Hamming distance >= 4 ... *)
+Theorem C10_delimiter_distance : forall a b : Z,
+  In a delims -> In b delims -> a <> b -> (4 <= hamming a b)%nat.
+Proof. exact delims_distance. Qed.
+Print Assumptions C10_delimiter_distance.
+
+(* ... hence EVERY single-bit error, at every position including the first delimiter, of a valid
+   data frame or short confirmation is rejected. *)
+Theorem C10_single_bit : forall (h : header) (pdu : bytes) (pos : nat) (k : Z),
+  wf_header h -> all_bytes pdu -> (length_byte h (length pdu) <= 249)%nat ->
+  (pos < length (frame_spec h pdu))%nat -> 0 <= k < 8 ->
+  decode (subst (frame_spec h pdu) pos (Z.lxor (nth pos (frame_spec h pdu) 0) (2 ^ k))) = Ok Reject.
+Proof. exact single_bit_data. Qed.
+Print Assumptions C10_single_bit.
+
+Theorem C10_single_bit_sc : forall (pos : nat) (k : Z),
+  (pos < length (encode TShortConf))%nat -> 0 <= k < 8 ->
+  decode (subst (encode TShortConf) pos (Z.lxor (nth pos (encode TShortConf) 0) (2 ^ k))) = Ok Reject.
+Proof. exact single_bit_sc. Qed.
+Print Assumptions C10_single_bit_sc.
+
+(* The exact boundary of the single-byte clause: a single-byte substitution of a valid data frame
+   that is accepted as anything at all is a swap of the first delimiter for another frame-start
+   byte - and that case is real (an SD1 frame whose first byte becomes SD4 reads as a token, as it
+   does for every conforming decoder). *)
+Theorem C10_delimiter_swap_is_the_only_escape :
+  (forall (h : header) (pdu : bytes) (pos : nat) (v : Z) (t : telegram) (n : nat),
+     wf_header h -> all_bytes pdu -> (length_byte h (length pdu) <= 249)%nat ->
+     (pos < length (frame_spec h pdu))%nat -> is_byte v -> v <> nth pos (frame_spec h pdu) 0 ->
+     decode (subst (frame_spec h pdu) pos v) = Ok (Accept t n) -> pos = 0%nat /\ is_delim v = true) /\
+  (exists (h : header) (pdu : bytes) (v : Z),
+     wf_header h /\ all_bytes pdu /\ (length_byte h (length pdu) <= 249)%nat /\
+     is_byte v /\ v <> nth 0 (frame_spec h pdu) 0 /\ is_delim v = true /\
+     decode (subst (frame_spec h pdu) 0 v) = Ok (Accept (TToken (h_da h) (h_sa h)) 3)).
+Proof.
+  exact (conj accepted_mutation_is_delimiter_swap
+              (ex_intro _ swap_witness_h (ex_intro _ [] (ex_intro _ SD4 delimiter_swap_witness)))).
+Qed.
+Print Assumptions C10_delimiter_swap_is_the_only_escape.
+
+(* The mutation oracle run by the correspondence check is implied as well. *)
+Theorem C10_mutation_oracle_sound : forall (h : header) (pdu : bytes) (pos : nat) (v : Z) (r : dres),
+  wf_header h -> all_bytes pdu -> (length_byte h (length pdu) <= 249)%nat ->
+  (pos < length (frame_spec h pdu))%nat -> is_byte v -> v <> nth pos (frame_spec h pdu) 0 ->
+  decode (subst (frame_spec h pdu) pos v) = Ok r -> c10_mut_ok (frame_spec h pdu) pos v (Some r) = true.
+Proof. exact mut_oracle_ok. Qed.
+Print Assumptions C10_mutation_oracle_sound.
+
+(* ------------------------------------------------------------------ non-vacuity *)
+
+(* Accept with trailing bytes; the SD2 frame with LE = 3 that needs frame_raw_sd2; NeedMore; Reject. *)
+Example C10_accept_hypothesis_satisfiable :
+  let h := mkHeader 125 2 (Some 61) (Some 62) (FcRequest FcbHigh RqSrdLow) in
+  all_bytes (frame_spec h [1; 2; 3] ++ [SD4; 7]) /\
+  decode (frame_spec h [1; 2; 3] ++ [SD4; 7]) = Ok (Accept (TData h [1; 2; 3]) 14).
+Proof.
+  cbv zeta. split; [|vm_compute; reflexivity].
+  apply Forall_forall. intros x Hx. vm_compute in Hx. unfold is_byte. lia.
+Qed.
+
+Example C10_sd2_short_le_accepted :
+  let h := mkHeader 5 2 None None (FcRequest FcbHigh RqSrdLow) in
+  decode (frame_raw_sd2 h (fc_to_byte (h_fc h)) []) = Ok (Accept (TData h []) 9).
+Proof. vm_compute. reflexivity. Qed.
+
+Example C10_needmore_and_reject_occur :
+  let l := [SD2; 9; 9; SD2; 1; 2; 3] in
+  decode l = Ok NeedMore /\ (length l < need l)%nat /\
+  decode [SD2; 9; 8; SD2; 1; 2; 3] = Ok Reject /\ decode [SD2; 9; 8; SD2; 1; 2; 3; 4; 5] = Ok Reject.
+Proof. cbv zeta. repeat split; try (vm_compute; reflexivity). apply Nat.ltb_lt. vm_compute. reflexivity. Qed.
+
+(* The single-byte hypotheses are satisfiable at every kind of position of an SD2 frame. *)
+Example C10_single_byte_hypotheses_satisfiable :
+  let h := mkHeader 125 2 (Some 61) (Some 62) (FcRequest FcbHigh RqSrdLow) in
+  let F := frame_spec h [1; 2; 3] in
+  wf_header h /\ all_bytes [1; 2; 3] /\ (length_byte h 3 <= 249)%nat /\
+  Forall (fun pos => (pos < length F)%nat /\ is_byte 0 /\ 0 <> nth pos F 0 /\ ~ (pos = 0%nat /\ is_delim 0 = true) /\
+                     decode (subst F pos 0) = Ok Reject)
+         [0; 1; 2; 3; 4; 6; 7; 9; 12; 13]%nat.
+Proof.
+  cbv zeta. split; [unfold wf_header, is_addr7, wf_sap, is_byte; cbn; lia|].
+  split; [repeat constructor; unfold is_byte; lia|]. split; [apply Nat.leb_le; vm_compute; reflexivity|].
+  repeat constructor; try (apply Nat.ltb_lt; vm_compute; reflexivity); try (unfold is_byte; lia);
+    try (vm_compute; discriminate); try (vm_compute; reflexivity); try (intros (_ & H); vm_compute in H; discriminate).
+Qed.
